@@ -125,7 +125,8 @@ func (t *Trie[K, V]) Get(key K) (v V, ok bool) {
 		return v, false
 	}
 	x, err := t.root.get(key, 0)
-	if x == nil || err != nil {
+	// A node without the isValid flag is only a prefix of some longer key.
+	if x == nil || err != nil || !x.isValid {
 		return v, false
 	}
 
